@@ -1,4 +1,5 @@
 """C20 — the interactive line editor keeps its cursor inside the line."""
+import re
 from ..facts import callee_of, short, sp_file_line, expr_str, expr_walk, place_is_local
 from .. import kit
 from ..dim import Dim
@@ -159,6 +160,45 @@ def run(ctx):
     ctx.oblig(ok, {"splitter": "find(';')"}, "call argument")
     if not ok:
         ctx.violation("splitter-delim", gn.file_line(), "the terminal reader does not split the submitted line at ';'")
+    ctx.finish_rule()
+
+    # ------------------------------------------------------------------ R7
+    ctx.rule("C20.R7", "word motions classify every character with the same predicates, forwards and backwards", floor=2)
+    cls_used = {}
+    for nm_ in ("find_word_next", "find_word_back"):
+        f_ = ctx.fn(T + nm_)
+        cls_used[nm_] = sorted({short(c).rsplit("::", 1)[-1] for b, t, c in f_.calls() if c and re.search(r"<impl char>::is_\w+$", c)})
+    for nm_, got in sorted(cls_used.items()):
+        ctx.instance(1)
+        ok = got == ["is_alphanumeric", "is_whitespace"]
+        ctx.oblig(ok, {nm_: got}, "word class = is_alphanumeric, gap class = is_whitespace")
+        if not ok:
+            ctx.violation("word-class|%s" % nm_, ctx.fn(T + nm_).file_line(), "`%s` classifies characters with %s; the first character of a motion and the characters it scans must be "
+                          "judged by the same predicates (is_alphanumeric / is_whitespace, as in the other direction), otherwise a motion starting on a digit stops in the middle of a word" % (nm_, got))
+    ctx.finish_rule()
+
+    # ------------------------------------------------------------------ R6
+    ctx.rule("C20.R6", "editing keys adopt the focused history line whether or not they change it", floor=2)
+    KEY = "lace::term::Key"
+    knames = {v["idx"]: v["name"] for v in prog.adt(KEY)["variants"]}
+    ksw = list(kit.discr_switches(hk, KEY))
+    ctx.need(ksw, "match on Key in the key handler")
+    kb, kplace, ktargets, koth = max(ksw, key=lambda x: len(x[2]))
+    un_blocks = {b for b, t, c in hk.calls() if c == T + "Terminal::update_next"}
+    for vi, tb in sorted(ktargets.items()):
+        if knames.get(vi) not in ("Backspace", "Delete"):
+            continue
+        reg = kit.dominated_region(hk, tb)
+        sm = hk.succ_map()
+        leaving = {b for b in reg if any(x not in reg for x in sm[b]) or hk.term(b)["k"] == "return"}
+        skip = (hk.reachable(tb, avoid=un_blocks) & leaving) - un_blocks
+        ctx.instance(1)
+        ctx.oblig(not skip, {knames[vi]: "update_next on every path"}, "must-pass-through")
+        if skip:
+            ctx.violation("edit-key-no-adopt|%s" % knames[vi], sp_file_line(hk.term(tb).get("sp")),
+                          "%s can finish without update_next() (lines %s): a plain editor treats the recalled history line as the line being edited as soon as an editing key "
+                          "is pressed, even if nothing is removed; here the old draft stays in place and later Up/Down/Enter act on another text"
+                          % (knames[vi], hk.path_lines(hk.path(tb, skip, avoid=un_blocks))))
     ctx.finish_rule()
 
     # ------------------------------------------------------------------ R5
